@@ -64,6 +64,33 @@ def _run(V, prop, steps, nreq, factory_preempt, race=None):
         pool._stream_available_condition = kit.VirtualCondition(pool._lock)
         def arm(c):
             c.lock = kit.SchedLock('connection.lock', pre)
+    elif race == 'any':
+        # general pre-emption: at any lock acquire/release of any driver function, while the running thread holds no
+        # lock, one other thread may act: deliver a pending response, fire a timer, run a queued task, defunct a
+        # connection or shut the pool down
+        def other_thread(function, name, phase):
+            ev = []
+            for (c, stream, tag, msg) in world.pending():
+                ev.append(('respond', c, stream, tag))
+            for t in world.timers():
+                ev.append(('timer', t))
+            if not pool.is_shutdown:
+                ev.append(('shutdown',))
+            if not ev:
+                return
+            e = ev[V.choice('pre_ev_%d' % pre.used, len(ev))]
+            V.tag('preempted_in', '%s/%s/%s -> %s' % (function, name, phase, e[0]))
+            if e[0] == 'respond':
+                world.respond(e[1], e[2], world.rows(e[3]))
+            elif e[0] == 'timer':
+                e[1].fire()
+            else:
+                pool.shutdown()
+        pre = kit.Preempter(V, None, other_thread, only_unlocked=True)
+        pool._lock = kit.SchedLock('pool._lock', pre)
+        pool._stream_available_condition = kit.VirtualCondition(pool._lock)
+        def arm(c):
+            c.lock = kit.SchedLock('connection.lock', pre)
     else:
         arm = None
     if arm:
